@@ -99,6 +99,19 @@ def old_judge(params, k, o, label=None):
             bad.append(("old:pidfile-not-naming-master" + at, "pid file content %r while the old master runs" % (content,)))
         if any(t[0] == "listener-close" for t in k.trace):
             bad.append(("old:listener-closed" + at, "the old master closed a listener while running"))
+        # the old master's own pool: the configured number, none after WINCH (daemon mode), the configured number again after HUP
+        expected = 2
+        for t in k.trace:
+            if t[0] == "log" and t[2].startswith("Handling signal: "):
+                sname = t[2].split(": ")[1]
+                if sname == "winch" and params["daemon"]:
+                    expected = 0
+                elif sname == "hup":
+                    expected = 2
+        live_workers = [p.pid for p in k.children() if p.kind == "worker" and p.alive]
+        if label is None and len(live_workers) != expected and arb.num_workers != expected:
+            bad.append(("old:pool-size-after-winch-hup", "the old master should run %d workers (configured 2; WINCH empties the pool, HUP restores it): %d alive, num_workers=%r" % (
+                expected, len(live_workers), arb.num_workers)))
         # a USR2 sent when no upgrade is pending must start one
         usr2_effective = 0
         pend = 0
